@@ -25,7 +25,7 @@ PID = "C27"
 LEVEL = "exploration"
 TECHNIQUE = "Hypothesis op-sequence histories against the real DNSLayer + plain model; metamorphic re-segmentation of TCP streams"
 RULE = ("histories of 1-10 ops on one connection: client queries (ids from a 4-element set so they collide while outstanding "
-        "and after completion, 11 names incl. IDN and DNS-0x20 style mixed case (half of the queries), names select the addon policy pass/respond/error), upstream replies "
+        "and after completion, 11 names incl. IDN and DNS-0x20 style mixed case (half of the queries), the first question's name selects the addon policy pass/respond/error; 5/16 of the queries carry 2, 3 or 0 questions), upstream replies "
         "(to any earlier forwarded query, unsolicited id, duplicate), malformed client frames (zero length prefix, garbage "
         "message), closes; upstream ok|connect-failure|none; UDP and TCP; TCP streams delivered message-aligned, coalesced, "
         "cut at generated positions, and (1/10 of TCP cases) at every single position of the first stream (<= 100); non-trivial = history contains an "
@@ -69,6 +69,11 @@ def gen_history(b: bytes):
         if k < 7 or nq == 0:
             ops.append(["q", (s.pick(IDS) if s.below(2) else s.u16()), s.below(len(NAMES)) if s.below(3) else s.pick(COMMON_NAMES), s.pick([1, 1, 28, 16]),
                         s.below(2), (0 if s.below(4) else s.below(16))])
+            # QDCOUNT != 1 is legal on the wire and mitmproxy parses it: 1/8 of the queries have 2 questions,
+            # 1/8 have 3, 1/16 have none (7th element: indices of the further questions, or [-1] for "no question")
+            k = s.below(16)
+            if k >= 11:
+                ops[-1].append([-1] if k == 15 else [s.below(len(NAMES)) for _ in range(1 if k < 13 else 2)])
             nq += 1
         elif k < 11:
             ops.append(["r", s.below(8), s.pick(["match", "match", "match", "dup", "old"])])
@@ -94,13 +99,19 @@ def strategy(ctx):
 
 # ---------------------------------------------------------------- wire helpers
 def query_desc(op):
-    _k, mid, ni, qt, rd, opcode = op
+    _k, mid, ni, qt, rd, opcode = op[:6]
+    more = op[6] if len(op) > 6 else []
+    if more == [-1]:
+        qs = []
+    else:
+        qs = [[R.name_to_labels(".".join(NAMES[i])), 0, (qt if j == 0 else (1, 28, 16)[(qt + i + j) % 3]), 1]
+              for j, i in enumerate([ni] + list(more))]
     return {"id": mid, "qr": 0, "opcode": opcode, "aa": 0, "tc": 0, "rd": rd, "ra": 0, "z": 0, "rcode": 0,
-            "q": [[R.name_to_labels(".".join(NAMES[ni])), 0, qt, 1]], "an": [], "ns": [], "ar": []}
+            "q": qs, "an": [], "ns": [], "ar": []}
 
 
 def reply_desc(q, n):
-    name = q["q"][0][0]
+    name = q["q"][0][0] if q["q"] else ()
     return {"id": q["id"], "qr": 1, "opcode": q["opcode"], "aa": 0, "tc": 0, "rd": q["rd"], "ra": 1, "z": 0, "rcode": 0,
             "q": q["q"], "an": [[name, 1, 1, 1, 60 + n, [["b", bytes([192, 0, 2, n & 255])]]]], "ns": [], "ar": []}
 
@@ -164,12 +175,13 @@ def run_history(case, mode, cuts, single_cut=None):
                 rk = _msgkey(req)
             except Exception as e:  # noqa
                 obs.problems.append(("hook-request-unencodable:" + hook.name, repr(e)))
-        if hook.name == "dns_request" and req is not None and req.question is not None:
-            n = req.question.name.lower()
+        if hook.name == "dns_request" and req is not None and req.questions:
+            # the addon policy is selected by the first question's name (queries may carry 0, 1, 2 or 3 questions)
+            n = req.questions[0].name.lower()
             if n == "err.test":
                 f.error = mflow.Error("addon says no")
             elif n == "ans.test":
-                f.response = req.succeed([mdns.ResourceRecord.A(req.question.name, IPv4Address("198.51.100.7"))])
+                f.response = req.succeed([mdns.ResourceRecord.A(req.questions[0].name, IPv4Address("198.51.100.7"))])
         resp = getattr(f, "response", None)
         pk = None
         if resp is not None:
@@ -293,6 +305,8 @@ def run_history(case, mode, cuts, single_cut=None):
 
 
 def NAMES_POLICY(qd):
+    if not qd["q"]:
+        return "pass"
     n = R.canon(qd["q"][0][0])
     return "error" if n == (b"err", b"test") else "respond" if n == (b"ans", b"test") else "pass"
 
